@@ -106,9 +106,9 @@ func (c *SzseBinChecksumService) Algorithm() string {
 func (c *SzseBinChecksumService) Calc(data *bytes.Buffer) int32 {
 	var checksum int32
 	for _, b := range data.Bytes() {
-		checksum += int32(b)
+		checksum = (checksum + int32(b)) % 256
 	}
-	return checksum % 256
+	return checksum
 }
 
 func init() {
